@@ -172,6 +172,9 @@ func Generate(seed uint64, prop, tier string) *Plan {
 		c.Chunk = r.Pick(1024, 2048, 4096, 65536)
 	}
 	c.ReusePort = r.Chance(1, 3)
+	if c.Network != "unix" && (prop == "C06" || prop == "C07") && r.Chance(1, 4) || r.Chance(1, 10) {
+		c.Listeners = r.Pick(2, 3) // Rotate: two tcp listeners, or tcp plus unix
+	}
 	c.LB = r.Intn(3)
 	if prop == "C15" {
 		c.ReusePort = false
